@@ -446,24 +446,33 @@ func ruleOPT3(c *Ctx) {
 		if pt, ok := t.(*types.Pointer); ok && structT != nil && types.Identical(pt.Elem(), structT) {
 			// *Struct case
 			body := &ast.BlockStmt{List: cc.Body}
-			// the whole arm may have been moved into a private method (`dst.joinStruct(src)`)
+			bodies := []ast.Node{body}
+			// the whole arm may have been moved into private methods (`dst.joinStruct(src)`, possibly split further)
 			for _, st := range cc.Body {
 				if es, ok := st.(*ast.ExprStmt); ok {
 					if call, ok := ast.Unparen(es.X).(*ast.CallExpr); ok {
-						if h := p.InlineAny(join)(call); h != nil && h.Body() != nil && len(findAll[*ast.IfStmt](h.Body())) > 0 {
-							body = h.Body()
+						if h := p.InlineAny(join)(call); h != nil && h.Body() != nil {
+							for _, g := range p.CalleeClosure(h, 2) {
+								if g.Decl != nil {
+									bodies = append(bodies, g.Body())
+								}
+							}
 						}
 					}
 				}
 			}
 			joined := false
-			for _, call := range findAll[*ast.CallExpr](body) {
-				if m, _, _, ok := FlagCall(info, call); ok && m == "Join" {
-					joined = true
+			var allIfs []*ast.IfStmt
+			for _, b := range bodies {
+				for _, call := range findAll[*ast.CallExpr](b) {
+					if m, _, _, ok := FlagCall(info, call); ok && m == "Join" {
+						joined = true
+					}
 				}
+				allIfs = append(allIfs, findAll[*ast.IfStmt](b)...)
 			}
 			c.Oblige("join:*Struct:flags-joined", cc.Pos(), joined, "dst.Flags.Join(src.Flags) missing")
-			for _, ifs := range findAll[*ast.IfStmt](body) {
+			for _, ifs := range allIfs {
 				cond := ast.Unparen(ifs.Cond)
 				// `if !src.Flags.Has(NonBooleanFlags) { return }` is the early-return form of the outer guard
 				if u, isNot := cond.(*ast.UnaryExpr); isNot && u.Op == token.NOT {
